@@ -447,7 +447,12 @@ template<class P> static void run_termset(P& p, const std::vector<TermSpec>& ts,
     Built b = install_lexer(p, ts, predicted);
     ctr["termsets"]++;
     const char* prop = c10 ? "C10" : "C04";
-    if (!b.ok) { add_viol(prop, "lexer-construction-failed", subject, "", b.what); return; }
+    if (!b.ok) {
+        add_viol(prop, "lexer-construction-failed", subject, "", b.what);
+        // every term of the pools is a valid term: a rejected (or overrunning) construction means a capacity the library fixed for itself did not suffice
+        add_viol("C12", b.bounds ? "lexer-capacity-overrun" : "valid-termset-rejected", subject, "", "the lexer for this valid term set could not be built: " + b.what);
+        return;
+    }
     ctr["C12.termset_evals"]++;
     if ((long)b.states > predicted) add_viol("C12", "lexer-dfa-size-underestimated", subject, "", "sum of the terms' dfa_size is " + std::to_string(predicted) + ", the builder uses " + std::to_string(b.states));
     std::vector<TermRef> refs(ts.size()); for (size_t i = 0; i < ts.size(); ++i) make_term_ref(ts[i], refs[i]);
